@@ -57,6 +57,10 @@ def main():
         l = re.sub(r"/tmp/seed-C\d+", WT, l)
         l = l.replace("<worktree>", WT).replace("<this dir>/../", seed + "/").replace("<this dir>", demo_dir)
         l = re.sub(r"^git apply (\S*/)?patch\.diff$", "git apply " + patch, l)
+        # ENV=... cargo ...  ->  keep the assignments as a prefix the shell understands, mark as cargo
+        menv = re.match(r"^((?:[A-Z_]+=(?:\"[^\"]*\"|'[^']*'|\S+)\s+)+)(cargo\b.*)$", l)
+        if menv:
+            l = "cargo-env " + l
         if l.startswith("cp "):
             parts = l.split()
             # a source given relative to the demo directory
@@ -85,7 +89,7 @@ def main():
             continue
         if c.startswith("cd "):
             continue
-        rc, out = sh(c)
+        rc, out = sh(c[len("cargo-env "):] if c.startswith("cargo-env ") else c)
         log.append((c, rc))
         if c.startswith("cargo"):
             if phase == "before":
@@ -102,7 +106,7 @@ def main():
             print("PATCH DOES NOT APPLY", out)
             return 2
         for c in [c for c in cmds if c.startswith("cargo")]:
-            rc, out = sh(c)
+            rc, out = sh(c[len("cargo-env "):] if c.startswith("cargo-env ") else c)
             log.append((c + "   # with the change", rc))
             demo_after = rc if demo_after in (None, 0) else demo_after
             print(f"[demo after] rc={rc}: {c}")
